@@ -77,6 +77,8 @@ def random_abstract(rng, cmeta, allow_err):
     terms = rng.sample("abcdef", nterms)
     nrules = rng.randint(2, min(10, len(slots)))
     avail = list(range(len(slots))); rng.shuffle(avail)
+    if rng.random() < 0.35:      # nullable-heavy: make sure the empty-rule slots are used
+        avail.sort(key=lambda s_: (slots[s_][0] != 0, rng.random()))
     rules = []
     p_nt = rng.choice([0.3, 0.45, 0.6])
     for s in avail[:nrules]:
@@ -106,6 +108,12 @@ FORCED = [
     Abstract("right-rec-list", "S", [("S", []), ("S", ["a","S"])]),
     Abstract("unit-chain", "S", [("S", ["A"]), ("A", ["B"]), ("B", ["a"]), ("B", ["b","S","c"])]),
     Abstract("nullable-prefixes", "S", [("S", ["A","B","a"]), ("A", []), ("A", ["b"]), ("B", []), ("B", ["c"])]),
+    Abstract("first-through-nullable", "S", [("S", ["A", "B", "b"]), ("A", ["a"]), ("B", ["C", "c"]), ("C", []), ("C", ["d"])]),
+    Abstract("first-through-nullable-2", "S", [("S", ["A", "B"]), ("A", ["a"]), ("B", ["C", "b"]), ("C", []), ("C", ["c"])]),
+    Abstract("first-through-two-nullables", "S", [("S", ["a", "A", "B", "e"]), ("A", ["C", "C", "b"]), ("B", ["C", "d"]), ("C", []), ("C", ["c"])]),
+    Abstract("nullable-then-nonnullable-tail", "S", [("S", ["A", "B", "c"]), ("A", ["a"]), ("B", []), ("B", ["b"])]),
+    Abstract("shared-closure-child", "S", [("S", ["A"]), ("S", ["d", "B"]), ("A", ["C", "e"]), ("A", ["B"]), ("B", ["C", "e", "f"]), ("C", ["c"])]),
+    Abstract("shift-and-two-reductions", "S", [("S", ["A", "a"]), ("S", ["B", "b"]), ("S", ["C"]), ("A", ["c"]), ("B", ["c"]), ("C", ["c", "a"])]),
     Abstract("nullable-run", "S", [("S", ["A","A","A","b"]), ("A", [])]),
     Abstract("expr-prec", "S", [("S", ["S","a","S"]), ("S", ["S","b","S"]), ("S", ["c"]), ("S", ["d","S","e"])], {"a": (1, 1), "b": (2, 1)}),
     Abstract("expr-rtol", "S", [("S", ["S","a","S"]), ("S", ["S","b","S"]), ("S", ["c"])], {"a": (1, 2), "b": (1, 2)}),
